@@ -7,7 +7,7 @@ from props_codec import *
 # ------------------------------------------------------------------ C03 -----
 def check_C03(ctx):
     proofs_or_violation(ctx, ['Properties_C03.v'])
-    S = CodecStreams(ctx)
+    S = CodecStreams(ctx, nvals=(None if ctx.quick else 500))
 
     def oracle(r):
         h, m = r['h'], r['m']
@@ -36,7 +36,7 @@ def check_C03(ctx):
 # ------------------------------------------------------------------ C06 -----
 def check_C06(ctx):
     proofs_or_violation(ctx, ['Properties_C06.v'])
-    S = CodecStreams(ctx)
+    S = CodecStreams(ctx, nvals=(None if ctx.quick else 400))
     pool = S.pool
 
     def oracle(r):
@@ -54,7 +54,7 @@ def check_C06(ctx):
     # capacity sweep over the library's buffer writers
     rows = [r for r in S.run_enc() if r['h'] and r['h']['st'] == '0' and 'handle' not in pool.caps[r['tid']]]
     ctx.rng.shuffle(rows)
-    rows = rows[: (150 if ctx.quick else 1500)]
+    rows = rows[: (150 if ctx.quick else 6000)]
     cases = []
     for r in rows:
         size = int(r['h']['size'])
@@ -122,7 +122,7 @@ def dec_items_from_enc(S, suffix=''):
 
 def check_C01(ctx):
     proofs_or_violation(ctx, ['Properties_C01.v'])
-    S = CodecStreams(ctx)
+    S = CodecStreams(ctx, nvals=(None if ctx.quick else 500))
     pool = S.pool
     broken = corr_enc(ctx, S, lambda r: None)
     # decode what was written, with and without a continuation
@@ -440,7 +440,7 @@ CODES = list(range(1, 19))
 
 def check_C10(ctx):
     proofs_or_violation(ctx, ['Properties_C10.v'])
-    S = CodecStreams(ctx, nvals=(5 if ctx.quick else 40))
+    S = CodecStreams(ctx, nvals=(5 if ctx.quick else 80))
     pool = S.pool
     rows = [r for r in S.run_enc() if r['h'] and r['h']['st'] == '0']
     # fault-free runs first (write and read), to learn the call sequences
@@ -872,7 +872,7 @@ def check_C09(ctx):
     # fungible pairs: every encoding of an A value whose counts fit B decodes as B to the
     # corresponding value, and re-encoding that B value reproduces the bytes
     pairs = [(i, j) for i in range(n) for j in range(n) if i != j and M[i][j] == '1']
-    S = CodecStreams(ctx, nvals=(10 if ctx.quick else 100), types=sorted({i for i, _ in pairs}))
+    S = CodecStreams(ctx, nvals=(10 if ctx.quick else 400), types=sorted({i for i, _ in pairs}))
     rows = [r for r in S.run_enc() if r['h'] and r['h']['st'] == '0']
     by = {}
     for r in rows:
@@ -984,7 +984,7 @@ def check_C16(ctx):
                 seqs = rng.sample(seqs, 3000)
             for s in seqs:
                 lines.append(('r', lim, N, 'rseq binst %d - 0 %s %s' % (lim, data, ','.join(s))))
-        for _ in range(300 if ctx.quick else 5000):
+        for _ in range(300 if ctx.quick else 20000):
             fk = rng.choice(['-', '-', '0', '1', '2', '3'])
             calls = gen_rcalls(rng, rem, rng.randint(3, 9), True)
             lines.append(('r', lim, N, 'rseq binst %d %s 16 %s %s' % (lim, fk, data, ','.join(calls))))
@@ -1003,7 +1003,7 @@ def check_C16(ctx):
                 seqs = rng.sample(seqs, 3000)
             for s in seqs:
                 lines.append(('w', lim, None, 'wseq binst 0 %d - 0 %s' % (lim, ','.join(s))))
-        for _ in range(300 if ctx.quick else 5000):
+        for _ in range(300 if ctx.quick else 20000):
             fk = rng.choice(['-', '-', '0', '1', '2'])
             s = [rng.choice(walpha) for _ in range(rng.randint(3, 8))]
             lines.append(('w', lim, None, 'wseq binst 0 %d %s 14 %s' % (lim, fk, ','.join(s))))
@@ -1095,7 +1095,7 @@ def check_C17(ctx):
     rng = ctx.rng
     cases = []
     rkinds = ['inst', 'buf', 'ped', 'stream', 'fd', 'bbuf', 'bped', 'binst']
-    for _ in range(600 if ctx.quick else 20000):
+    for _ in range(600 if ctx.quick else 60000):
         n = rng.choice([0, 1, 2, 7, 8, 9, 16, 31])
         data = ''.join('%02x' % rng.randrange(256) for _ in range(n)) or '-'
         calls = [c for c in gen_rcalls(rng, n, rng.randint(1, 8), False)]
@@ -1135,7 +1135,7 @@ def check_C17(ctx):
     # writers
     wkinds = ['inst', 'buf', 'ped', 'cx', 'stream', 'fd', 'bbuf', 'bped', 'binst']
     wl = []
-    for _ in range(500 if ctx.quick else 15000):
+    for _ in range(500 if ctx.quick else 50000):
         cap = rng.choice([0, 1, 4, 16, 64])
         calls, used, fits = [], 0, True
         for _ in range(rng.randint(1, 8)):
